@@ -103,6 +103,14 @@ PLANS = {
         "quick": [ex("rec", "rec", 1, 5, alphabet=["a", "b", "(", ")"]), rec("recR", "rec", 1500, 8, 10)],
         "thorough": [ex("rec", "rec", 1, 6, alphabet=["a", "b", "(", ")"]), rec("recR", "rec", 30000, 10, 14)],
     },
+    "C13": {
+        "quick": [ex("hpeg2", "peg", 2, 2, hist=1), ex("hmemo2", "memo", 2, 2, hist=2, modes=["E"], kinds=["slice"]),
+                  rec("pegH", "peg", 1200, 8, 6, kinds=["str", "slice", "stream"]), rec("memoH", "memo", 600, 8, 6), rec("rcvH", "rcv", 600, 8, 6)],
+        "thorough": [ex("hpeg2", "peg", 2, 2, hist=3, modes=["E"]), ex("hpeg3", "peg", 3, 2, hist=1), ex("hmemo3", "memo", 3, 2, hist=2, modes=["E"], kinds=["slice"]),
+                     ex("hrcv2", "rcv", 2, 2, hist=2, modes=["E"]),
+                     rec("pegH", "peg", 20000, 10, 8, kinds=["str", "slice", "stream"]), rec("memoH", "memo", 10000, 10, 8), rec("rcvH", "rcv", 10000, 10, 8),
+                     rec("repH", "rep", 10000, 9, 8)],
+    },
     "C15": {
         "quick": [ex("ctx3", "ctx", 3, 3), rec("ctxR", "ctx", 1500, 8, 8)],
         "thorough": [ex("ctx3", "ctx", 3, 4), rec("ctxR", "ctx", 30000, 10, 10)],
